@@ -591,8 +591,7 @@ pub fn generate(seed: u64) -> Scenario {
         variant: None,
         kinds: &[Kind::Standard],
         wide_max: 400,
-        tiny: false,
-    };
+        tiny: false, big_cp_of_8: 3 };
     let (spec, _class) = gen::gen_spec(&mut rng, &opts);
     let nstreams = *rng.pick(&[1usize, 1, 1, 2, 3]);
     let mut streams = vec![];
